@@ -25,6 +25,13 @@ PROPS["C03"] = dict(units=["ark_encoding"], assumptions=[A_ARK1, A_ARK2, M_DECAF
 PROPS["C01"] = dict(units=["ark_encoding"], assumptions=[A_ARK1, A_ARK2, M_DECAF, C09_CONTRACT, A_STD, M_LE32, A_WF],
     explanation="round trip = lemma over the two refinements (encode == spec_encode, decode == spec_decode) + M-DECAF")
 
+M_GROUP = "M-GROUP: valid points under te_add modulo spec_eq form a group of order r; te_add complete for a=-1, d=3021; smul additive (statements about spec functions)"
+PROPS["C04"] = dict(units=["ark_ops", "ark_encoding"], assumptions=[A_ARK2, M_GROUP, A_WF, A_STD],
+    explanation="each operator form ensures to_affine(result) == to_affine(te_add/te_sub/te_neg(views of operands)): the reference group law in canonical affine form",
+    not_decided=["termination of operator forwarding chains (R12)"])
+PROPS["C05"] = dict(units=["ark_ops"], assumptions=[A_ARK2, M_GROUP, A_WF, A_STD],
+    explanation="each Mul/MulAssign form ensures to_affine(result) == to_affine(ark_mul(k, view(point))) where ark_mul is arkworks' scalar multiplication (assumed projectively equal to the k-fold sum)")
+
 NOT_APPLICABLE = {
     "C15": "circuit shape / pinned Groth16 keys: the subject is the hidden ark_relations constraint store and binary key files; no pre/postcondition on a /repo function can state matrix equality across runs or SNARK verification (DESIGN.md C15)",
 }
